@@ -9,7 +9,7 @@ ID = "C20"
 LEVEL = "exploration"
 RULE = (
     "case = history of 1..12 full handshakes on the simulated network; each step connects to a host (inside / outside / "
-    "look-alike / subdomain of previously named domains, mixed case) whose response carries 0..2 Set-Cookie lines with "
+    "look-alike / subdomain of previously named domains, mixed case) whose response carries 0..2 Set-Cookie lines (field name in any letter case) with "
     "one Domain (with/without leading dot, upper/lower case) or none, optionally preceded by a redirect hop (3xx from another host, itself carrying Set-Cookie lines), plus an optional caller cookie and an optional Host header override (host= option). The process-wide "
     "jar is cleared at the start of each history. Non-trivial: history with >= 2 cookie-setting responses and a "
     "look-alike host, a mixed-case domain or an overwritten value. Distinct = the history."
@@ -57,7 +57,7 @@ def run_case(case):
                 attr = ""
                 if hop.get("domain") and (j == 0 or hop.get("domain_on") == "all"):
                     attr = f"; Domain={hop['domain']}"
-                extra.append(f"Set-Cookie: {n}={v}{attr}" + ("; Path=/" if hop.get("path") else ""))
+                extra.append(f"{hop.get('field', 'Set-Cookie')}: {n}={v}{attr}" + ("; Path=/" if hop.get("path") else ""))  # field names are case-insensitive
             if hi < len(hops) - 1:
                 head = f"HTTP/1.1 {hop.get('status', 302)} Found\r\nLocation: ws://{hops[hi + 1]['host']}/c\r\n" + "".join(x + "\r\n" for x in extra) + "\r\n"
                 responses.append(lambda req, head=head: head.encode())
@@ -166,11 +166,12 @@ step = st.fixed_dictionaries(
         "domain_on": st.sampled_from(["first", "all"]),
         "cookie": st.sampled_from(["mine=1", "x=y; w=z"]),
         "path": st.booleans(),
+        "field": st.sampled_from(["Set-Cookie", "set-cookie", "SET-COOKIE", "Set-cookie"]),
         "host_opt": st.sampled_from(["example.com", "sub.example.com", "other.test", "evil.test"]),
         # the connection first goes to another host, which answers with a redirect (a handshake response, too) that may set cookies
         "via": st.fixed_dictionaries({"host": st.sampled_from(HOSTS), "status": st.sampled_from([301, 302, 303, 307, 308])},
                                      optional={"set": st.lists(st.tuples(st.sampled_from(NAMES), st.text(alphabet="abc123XYZ", min_size=1, max_size=4)), min_size=1, max_size=2, unique_by=lambda t: t[0]).map(lambda l: [list(t) for t in l]),
-                                               "domain": st.sampled_from(DOMAINS), "domain_on": st.sampled_from(["first", "all"])}),
+                                               "domain": st.sampled_from(DOMAINS), "domain_on": st.sampled_from(["first", "all"]), "field": st.sampled_from(["Set-Cookie", "set-cookie", "SET-COOKIE"])}),
     },
 )
 cases = st.fixed_dictionaries({"steps": st.lists(step, min_size=1, max_size=12)})
